@@ -25,3 +25,8 @@ TEXT = {'technique': 'round-trip property testing of writers/readers over 5 back
  'level_note': 'Trusts the expected-merge model in props/c04 and the fault wrapper (fsmodel/faultfs.go); only single faults; helpers that hang are '
                'inconclusive.',
  'design_ref': 'DESIGN.md 4/C04'}
+
+# native coverage-guided campaign over the rapid generator (hx.FuzzRapid), thorough tier only
+CHECK['tiers']['thorough'].append({'test': '^$', 'fuzz': '^FuzzWriter$', 'fuzztime': '90s', 'gomaxprocs': 4, 'timeout': 400})
+CHECK['tiers']['thorough'].append({'test': '^$', 'fuzz': '^FuzzCopy$', 'fuzztime': '90s', 'gomaxprocs': 4, 'timeout': 400})
+TEXT['technique'] += '; thorough adds a native coverage-guided go fuzzing campaign over the same generator (rapid.MakeFuzz)'
